@@ -314,7 +314,7 @@ def run(ctx, build):
     ctx.sample(dict(api='BufferedTranscoder', content_len=4097, sizes=[8, 512, 4096]))
 
     # ---- 4. fresh interpreter, real UDP ----------------------------------------------------------
-    files = [b'line1\nline2\r\n\0end', b'x' * 16, b'', b'caf\xc3\xa9\n']
+    files = [b'line1\nline2\r\n\0end', b'x' * 16, b'', b'caf\xc3\xa9\n', b'# caf\xe9 settings\nkey=value\n' + b'z' * 40 + b'\xff\n']
     if ctx.thorough:
         files += [bytes(rng.choice([13, 10, 97]) for _ in range(200))]
     for entry in ('server', 'tftpd'):
@@ -330,10 +330,15 @@ def run(ctx, build):
                 ctx.violation('fresh-server/netascii-rrq',
                               f'netascii RRQ to a fresh nobodd.{entry} server: {r}, expected {spec_encode(content)!r}',
                               dict(api='fresh', entry=entry, content=content, result=r))
-            elif not ascii_ok and not str(r.get('kind', '')).startswith('ERROR') and \
-                    b'\xc3' in bytes.fromhex(r.get('got', '')):
-                ctx.violation('fresh-server/nonascii-sent', f'non-ASCII content sent in netascii mode: {r}',
-                              dict(api='fresh', entry=entry, content=content, result=r))
+            elif not ascii_ok and not str(r.get('kind', '')).startswith('ERROR'):
+                # refused with an ERROR packet, or SUBSTITUTED: every ASCII byte in place, every other byte replaced by
+                # exactly one ASCII substitute -- never passed through, never dropped
+                got = bytes.fromhex(r.get('got', ''))
+                subst_ok = r.get('kind') == 'DONE' and any(
+                    got == spec_encode(bytes(c if c < 128 else sub for c in content)) for sub in range(128))
+                if not subst_ok:
+                    ctx.violation('fresh-server/nonascii-sent', f'non-ASCII content in netascii mode was neither refused nor substituted byte for byte '
+                                  f'(sent {got!r} for {content!r}): {r.get("kind")}', dict(api='fresh', entry=entry, content=content, result=r))
     ctx.sample(dict(api='fresh-server', entry='server', rrq='f.txt netascii blksize=16'))
 
 
